@@ -35,7 +35,7 @@ META = {
             'scope, element+condition, two conditions, two for-clauses, nested generators, tuple target; quick N=5, '
             'thorough N=6) and over an extended operator set (is None, in, unary -, subscript, chained comparison, keyword '
             'call, tuple; quick N=4, thorough N=5). `is None` family: every and/or/not tree with <= 4 (thorough 6) nodes over '
-            '{x is None, y is not None, comparisons} in 20 positions (condition, element value, lambda body, test of a '
+            '{x is None, y is not None, a comparison} in 20 positions (condition, element value, lambda body, test of a '
             'conditional expression in element / condition / lambda, comparison operand). Large part: and/or chains and '
             'trees of 18-300 comparison operands in 7 styles (code objects that need EXTENDED_ARG). Random part: expressions of 6-34 nodes over the full grammar in all '
             'forms; fixed corpus of 94 hand-written realistic queries x 2 scopes. Distinct = distinct (scope, query text); '
@@ -774,7 +774,7 @@ lambda p: p.a is None and (p.b is not None or p.c == x) and not p.d is None
 def plan(tier):
     if tier == 'quick':
         return dict(basic_n=7, other_n=5, ext_n=4, random=3000, rmin=6, rmax=26, none_n=4, none_atoms=3, large_reps=4)
-    return dict(basic_n=8, other_n=6, ext_n=5, random=120000, rmin=6, rmax=34, none_n=6, none_atoms=4, large_reps=40)
+    return dict(basic_n=8, other_n=6, ext_n=5, random=100000, rmin=6, rmax=34, none_n=6, none_atoms=3, large_reps=40)
 
 
 def exhaustive_cases(G, p):
@@ -890,8 +890,8 @@ def run(ctx):
     ctx.floor('checked_cases_that_agree', int((20000 if q else 80000) * scale))
     ctx.floor('monitor.environments', int((80000 if q else 400000) * scale))
     ctx.floor('monitor.loop_structures_compared', int((10000 if q else 50000) * scale))
-    ctx.floor('cases.large', int((30 if q else 400) * scale))
-    ctx.floor('cases.none_family', int((1000 if q else 40000) * scale))
+    ctx.floor('cases.large', int((30 if q else 160) * scale))
+    ctx.floor('cases.none_family', int((1000 if q else 20000) * scale))
     ctx.floor('cache.renamed_twins', int((4000 if q else 8000) * scale))
 
 
